@@ -507,6 +507,11 @@ impl LiveActor {
         match result {
             Err(ConnectError::RemoteAbort(AbortReason::AlreadySyncing)) => {
                 debug!(?reason, "remote abort, already syncing");
+                if let Some(resync) = self.state.connect_declined(&namespace, peer) {
+                    if resync {
+                        self.sync_with_peer(namespace, peer, SyncReason::Resync);
+                    }
+                }
             }
             res => {
                 self.on_sync_finished(
